@@ -33,6 +33,15 @@ def main():
                     caught.append(p + " (" + ", ".join(rules) + ")")
             rows.append((sid, meta["property"], meta.get("summary", "")[:150].replace("|", "/"), log.get("confirmed"), "; ".join(caught) or "MISSED"))
             print(sid, log.get("confirmed"), "; ".join(caught) or "MISSED", flush=True)
+    # rows are kept in a cache so that a partial run (--only) updates its rows and leaves the others
+    cache_path = os.path.join(VERIF, "seeded", "summary_rows.json")
+    cache = {}
+    if os.path.exists(cache_path):
+        cache = json.load(open(cache_path))
+    for r in rows:
+        cache[r[0]] = list(r)
+    json.dump(cache, open(cache_path, "w"), indent=0, sort_keys=True)
+    rows = [tuple(cache[k]) for k in sorted(cache) if os.path.isdir(os.path.join(VERIF, "seeded", k))]
     with open(os.path.join(VERIF, "seeded", "SUMMARY.md"), "w") as f:
         f.write("# Seeded changes from blind sub-agents: verification and detection\n\n")
         f.write("Each row was re-verified by tools/seed_recheck.py: demo passes on a clean scratch copy of /repo, fails with the patch, patch builds; then the owning property's check was run against the patched copy.\n\n")
